@@ -56,8 +56,9 @@ def run(c, facts, tier):
     # C02.units
     c19.units_rules(c, facts, "C02.units")
     for key, row in sorted(ex.items()):
-        if key.startswith("self∈Test::Size"):
-            unit = re.search(r"∈Size::(\w+)$", key).group(1)
+        mu = re.search(r"∈Size::(\w+)$", key)
+        if key.startswith("self∈Test::Size") and mu:
+            unit = mu.group(1)
             toks = row["tokens"]
             txt = " ".join(toks)
             if unit == "Byte":
@@ -157,6 +158,11 @@ def run(c, facts, tier):
             txt = " ".join(row["effects"])
             fn_ = re.search(r"\((fnmatch-ci\?|streq-ci\?|fnmatch\?|streq\?) ", txt)
             c.ob("C02.match", "scheme::manager", "(is_pattern, insensitive)=%s → %s" % (m.group(1), want_m[m.group(1)]), fn_ is not None and fn_.group(1) == want_m[m.group(1)], "definition `%s`" % txt[:110], nontrivial=False)
+    # C02.printer: what each manager defines for a (destination, terminator) request
+    for M in codegen.MANAGERS:
+        for meth in ("get_printer", "get_file_printer"):
+            k = codegen.mgr_key(facts, M, meth)
+            codegen.diff_tables(c, "C02.printer", k, codegen.plain(codegen.table(facts, k, codegen.AFF())), spec["tables"][k], "printer definition")
     ip = facts.fn("scheme::manager::is_pattern")
     chars = sorted(n["v"] for n in find_all(ip.body, lambda n: n.get("k") == "lit" and n.get("t") == "char"))
     c.ob("C02.match", ip.key, "a pattern is a string containing ?, * or [", chars == sorted("?*["), "is_pattern tests for %s" % chars, nontrivial=False)
